@@ -1,5 +1,6 @@
 //! `srv` — property-based verification harness for getong/stateright (see /verif/DESIGN.md).
 pub mod engine;
+pub mod fuzz;
 pub mod graph;
 pub mod hist;
 pub mod props;
